@@ -292,15 +292,20 @@ def show(line):
 
 def idem_sig(r):
     """Triage label of a non-idempotent run (used only to key known findings)."""
-    cm = r.get("comments") or [0, 0, 0, 0]
-    if cm[3] > cm[1]:
+    joined, detached = r.get("comment_moves") or [0, 0]
+    if joined and detached:
+        return "comment-joined+detached"
+    if joined:
         # an own-line comment of the input shares its line with the preceding token in the output
         return "comment-joined"
-    if cm[3] < cm[1]:
+    if detached:
         # a comment that followed a token on its line in the input is on a line of its own in the output
         return "comment-detached"
     a, b = r["out1"].splitlines(), r["out2"].splitlines()
-    changed = [l[1:] for l in difflib.ndiff(a, b) if l[:1] in "+-"]
+    changed = []
+    for tag, i1, i2, j1, j2 in difflib.SequenceMatcher(None, a, b, autojunk=False).get_opcodes():
+        if tag != "equal":
+            changed += a[i1:i2] + b[j1:j2]
     if changed and all(not l.strip() for l in changed):
         return "blank-lines"
     return "other"
